@@ -58,6 +58,14 @@ def all_entries():
         return OnlineEnsembleForecaster([("a", NaiveForecaster("last")), ("b", NaiveForecaster("mean"))],
                                         ensemble_algorithm=NormalHedgeEnsemble(n_estimators=2, loss_func=mean_squared_error))
     L.append({"name": "fc_online_ensemble", "kind": "forecaster", "factory": online, "req": False})
+    # a conditional deseasonalizer left at its default seasonality test (None: the default is chosen in fit and must
+    # stay out of the constructor parameters)
+    def cond_default():
+        from sktime.transformations.series.detrend import ConditionalDeseasonalizer
+        return ConditionalDeseasonalizer(sp=4)
+    L.append({"name": "cond_deseason_default", "kind": "series-transformer", "factory": cond_default,
+              "methods": ["transform", "inverse_transform"], "inverse": True, "positive": False, "same_index": True,
+              "missing": False, "update": True, "frame": False})
     for e in E.series_transformers() + E.panel_transformers() + E.classifiers() + E.regressors():
         if not e["name"].endswith("reconfigured"):     # deliberately handed over in a fitted, re-parameterised state
             L.append(dict(e))
